@@ -451,7 +451,21 @@ func runC03(r *Report, rng *rand.Rand, thorough bool) {
 					"client": map[string]any{"fn": "New" + opName(rt.op) + "Request", "args": args, "then_serve": true, "via_method": len(scenarios)%2 == 1}})
 				cmetas[id] = cmeta{fw, rt, vals}
 			}
-			for _, base := range [][]string{nil, {"api", "v1"}} {
+			// a third base URL that is a string prefix of one of the document's own paths (the first literal segment of a
+			// route, whole or without its last letter): /pets under base /pets is served at /pets/pets, and at /pet/pets under /pet
+			bases := [][]string{nil, {"api", "v1"}}
+			for _, rt := range set.rs {
+				if len(rt.tmpl) > 0 && rt.tmpl[0].v == "" && len(rt.tmpl[0].lit) > 1 {
+					lit := rt.tmpl[0].lit
+					if (si+len(fw))%2 == 0 {
+						lit = lit[:len(lit)-1]
+					}
+					bases = append(bases, []string{lit})
+					r.Dist["base=prefix-of-a-document-path"]++
+					break
+				}
+			}
+			for _, base := range bases {
 				add := func(kind, method string, segs []string) {
 					id := fmt.Sprintf("%s/%d", name, len(scenarios))
 					full := append(append([]string(nil), base...), segs...)
